@@ -1091,8 +1091,8 @@ class Driver(object):
                 new = None
             elif not c.container:
                 new = gen_value(rng, c)
-                if vkey(new) == vkey(old) or (c.kind == "bool" and new == old):
-                    continue
+                if new == old:
+                    continue        # an equal value (0.0 / -0.0, Decimal('0') / Decimal('0.0')) is no change for the mapper
             elif c.container == "list":
                 r = rng.random()
                 new = (fresh() + old if r < 0.3 else old + fresh() if r < 0.5 else fresh() + old + fresh() if r < 0.7 else
@@ -1112,7 +1112,7 @@ class Driver(object):
                     new.update(fresh())
                 if rng.random() < 0.1:
                     new = {}
-            if c.container and new is not None and vkey(new) == vkey(old):
+            if c.container and new is not None and new == old:
                 continue
             changes[c.attr] = new
             if new is None or (c.container and not new):
